@@ -127,7 +127,7 @@ var (
 
 func (y *c15Sys) Root() *c15State {
 	w := world.NewL2(world.L2Options{Accounts: map[string]sdk.Coins{"executor": nil, "stranger": nil, "admin": nil}, Validators: y.genesisVals,
-		Params: func(p *opchildtypes.Params) { p.MaxValidators = 5 }})
+		Params: func(p *opchildtypes.Params) { p.MaxValidators = 6 }})
 	ctx := w.Ctx
 	w.OK.InitGenesis(ctx, oracletypes.GenesisState{CurrencyPairGenesis: []oracletypes.CurrencyPairGenesis{}})
 	for _, p := range c15Pairs {
